@@ -76,10 +76,18 @@ def batch(prop, mod, a):
     steps = 0
     agg = hashlib.sha256()
     t0 = time.time()
+    run_timeout = int(tier_cfg.get("run_timeout", 300))
     for i in range(a.start, a.start + a.count):
         g = R.rng_for(a.seed, prop, i)
         run = mod.generate(g, tier_cfg)
-        res = execute_run(mod, run, known)
+        # a hang inside the harness itself (outside any budgeted operation) must not stall the batch
+        # silently: dump where it is and exit, which the orchestrator reports as a harness error
+        sys.stderr.write(f"[worker] run {i}\n") if os.environ.get("VERIF_TRACE_RUNS") else None
+        faulthandler.dump_traceback_later(run_timeout, exit=True)
+        try:
+            res = execute_run(mod, run, known)
+        finally:
+            faulthandler.cancel_dump_traceback_later()
         sched = R.digest(run)
         s = res.summary()
         agg.update(f"{i}:{sched}:{s['obs_digest']};".encode())
